@@ -133,6 +133,15 @@ fn malformed_key<H: HashChain>(with_aux: bool) {
     }
     let mut pb = [0u8; 8];
     if klen >= 16 { pb.copy_from_slice(&key[8..16]); }
+    // exact acceptance set of the loader + parameter decoder: right length, a non-empty list of known type
+    // codes within the configured limits, nothing but 0xff after the configured number of levels
+    let loaded = hbs_lms::verif_hooks::hss_key::ReferenceImplPrivateKey::<H>::from_binary_representation(&key[..klen]);
+    let decoded = match &loaded { Ok(k) => k.compressed_parameter.to::<H>().ok(), Err(_) => None };
+    let want = if klen == 16 + H::OUTPUT_SIZE as usize { ref_param_bytes_cfg(&pb, true) } else { None };
+    assert!(decoded.is_some() == want.is_some(), "a key blob is usable iff it has the right length and a well-formed parameter list inside the configured limits");
+    if let (Some(d), Some((levels, _))) = (&decoded, want) {
+        assert!(d.len() == levels, "decoded level count");
+    }
     kani::cover!(klen == 16 + H::OUTPUT_SIZE as usize && ref_param_bytes_cfg(&pb, true).is_some(), "well-formed key reachable");
     kani::cover!(klen == 16 + H::OUTPUT_SIZE as usize && ref_param_bytes_cfg(&pb, true).is_none(), "right length, invalid parameters reachable");
     kani::cover!(klen == 0, "empty key reachable");
